@@ -1,6 +1,7 @@
 package leaderrotation
 
 import (
+	"cmp"
 	"math/rand"
 	"slices"
 
@@ -63,7 +64,7 @@ func (r *RepBased) GetLeader(view hotstuff.View) hotstuff.ID {
 	})
 
 	slices.SortFunc(weights, func(a, b wr.Choice) int {
-		return int(a.Item.(hotstuff.ID) - b.Item.(hotstuff.ID))
+		return cmp.Compare(a.Item.(hotstuff.ID), b.Item.(hotstuff.ID))
 	})
 
 	if r.prevCommitHead.View() < block.View() {
